@@ -33,6 +33,8 @@ def run(pid, name, edits, tier):
                            stderr=subprocess.STDOUT, text=True)
         dt = time.time() - t0
         out = r.stdout.strip().splitlines()
+        if 'Traceback' in r.stdout:
+            print(r.stdout)
         if r.returncode == 1:
             msg = next((l for l in out if l.startswith('  ')), '')
             return 'CAUGHT ' + msg.strip()[:150], dt
